@@ -25,6 +25,10 @@ template <class T> union PhantomStore { T o; PhantomStore() {} ~PhantomStore() {
 static PhantomStore<node::BlockAssembler> ba_store;
 template <class T, class V> static inline void poke(const T& member, V v) { *const_cast<T*>(&member) = (T)v; }
 void memory_cleanse(void*, size_t) {}
+// environment of CTxMemPoolEntry that is not the subject: TxGraph linkage (txgraph.cpp) and the vsize helper used only for the optional log line
+TxGraph::Ref::~Ref() {}
+unsigned int nBytesPerSigOp = DEFAULT_BYTES_PER_SIGOP;
+int64_t GetVirtualTransactionSize(int64_t, int64_t, unsigned int) { return (int64_t)nondet_range(1, 1000000); }
 
 static node::BlockCreateOptions draw_options()
 {
@@ -68,7 +72,8 @@ extern "C" void h_limits()
     const uint64_t w0 = nondet_u64(), s0 = nondet_u64(), n0 = nondet_u64() >> 8; const int64_t fees0 = nondet_i64();
     VASSUME(w0 >= reserved && w0 <= maxw && s0 <= (uint64_t)MAX_BLOCK_SIGOPS_COST && fees0 >= 0 && fees0 <= MAX_MONEY);
     ba.nBlockWeight = w0; ba.nBlockSigOpsCost = s0; ba.nBlockTx = n0; ba.nFees = fees0;
-    new ((void*)&ba.pblocktemplate) std::unique_ptr<node::CBlockTemplate>(new node::CBlockTemplate());
+    static PhantomStore<node::CBlockTemplate> tmpl_store;          // typed static storage, default-initialised in place (a value-initialising `new T()` zeroes through an untyped byte loop)
+    new ((void*)&ba.pblocktemplate) std::unique_ptr<node::CBlockTemplate>(new ((void*)&tmpl_store.o) node::CBlockTemplate);
 
     // a chunk of NTX mempool entries with symbolic weight / sigop cost / fee (phantom entries: the bookkeeping fields are poked)
     int32_t wt[NTX + 1]; int64_t so[NTX + 1]; int64_t fee[NTX + 1];
